@@ -12,7 +12,10 @@ per-segment empty-frame skipping, native packing with carried remainder -- guard
 belongs to), and on the read side the frame LUT join of `get_pixels_by_source_instance/_frame`
 (`image.py::_iterate_indices_for_stack`) on top of the translated frame access of `FrameAccess` (T1/T4/T12).
 
-Pixels of one plane are a flat row-major list of `rows*cols` entries.  The plane order
+Pixels of one plane are a flat list of `rows*cols` entries in *logical row-major order*: the source flattens every
+frame with `segment_array.flatten()` (C order whatever the strides of the user's array; the statement is pinned
+textually by translation target T20, and the harness feeds masks in Fortran order, as transposed / strided /
+negative-stride views and read-only).  The plane order
 (`plane_sort_index`, geometry: C03/C11) is a parameter.  Codecs are parameters (`Codec`). -/
 namespace HdVerif.SegEncode
 open HdVerif HdVerif.Bits HdVerif.Gen HdVerif.FrameAccess
